@@ -3,8 +3,8 @@
         (internal/recordstore/path.go: Path.Encode / Path.Decode)
    C31 uses the same vocabulary (Encode, local broken-down time) for delete-by-instant.
 
-   Strings are TLA+ strings; TLC evaluates Len, \o and SubSeq on them, a character is SubSeq(s,k,k).
-   A format is a sequence of tokens: the ten specifiers of the recorder, every other token is a literal.
+   A format is a sequence of tokens: the ten specifiers of the recorder, every other token is a literal
+   (SegNameBase.tla: Encode, Producible, DecodeImpl, calendar).
 
    Instants are (u, us) = Unix seconds (fits TLC's 32-bit integers until 2038) and microseconds. The offset
    of every server zone at every instant comes from a table computed at check time from the tz database by
@@ -23,7 +23,7 @@
      (leftmost, %path non-greedy), with the code's two deviations from the ideal as named switches:
      UnanchoredSearch (the expression is searched, not anchored to the whole name) and NoRangeCheck (two
      digits are accepted for month/day/hour/minute/second whatever their value).                          *)
-EXTENDS VerifCommon, C26Table
+EXTENDS SegNameBase
 
 CONSTANTS FormatIds,     \* which of AllFormats are explored
           Zones,         \* server zones (keys of the offset table)
@@ -31,13 +31,6 @@ CONSTANTS FormatIds,     \* which of AllFormats are explored
           CandZones,     \* zones in which candidate file names are generated
           CandPathIds,   \* paths whose names are mutated into candidate file names
           CandInstIds    \* instants (indices of the table) whose names are mutated
-
-\* Table: generated at check time (module C26Table):
-\*   <<[u, us, off: zone -> minutes, bd: zone -> [Y,m,d,H,M,S], twice: zone -> BOOLEAN]>>
-InstIds == DOMAIN Table
-
-Specs == {"%path", "%Y", "%m", "%d", "%H", "%M", "%S", "%f", "%z", "%s"}
-SixFields == {"%Y", "%m", "%d", "%H", "%M", "%S"}
 
 \* Record path formats after the extension has been added (PathAddExtension). All are accepted by
 \* conf.Path.validate: they contain %path and either %s or all of %Y %m %d %H %M %S.
@@ -61,157 +54,6 @@ AllFormats == <<
 
 AllPaths == <<"a", "a/b", "a-1", "cam.1_x", "2008-11-07_11-22-04-123456", "x/2008-11-07_11-22-04-123456.mp4",
               "1638447323", "a/Z">>
-
-HasTok(fmt, t) == \E i \in 1..Len(fmt) : fmt[i] = t
-AcceptedFormat(fmt) == HasTok(fmt, "%path") /\ (HasTok(fmt, "%s") \/ \A t \in SixFields : HasTok(fmt, t))
-
-\* ---------------------------------------------------------------- decimal strings
-Dig == <<"0", "1", "2", "3", "4", "5", "6", "7", "8", "9">>
-DigitSet == Range(Dig)
-RECURSIVE Pad(_, _)
-Pad(n, w) == IF w = 0 THEN "" ELSE Pad(n \div 10, w - 1) \o Dig[(n % 10) + 1]
-Ch(s, k) == SubSeq(s, k, k)
-IsDigits(s) == \A k \in 1..Len(s) : Ch(s, k) \in DigitSet
-DigVal(c) == CHOOSE d \in 0..9 : Dig[d + 1] = c
-Val2(s) == 10 * DigVal(Ch(s, 1)) + DigVal(Ch(s, 2))
-
-RECURSIVE Cat(_)
-Cat(ss) == IF ss = <<>> THEN "" ELSE Head(ss) \o Cat(Tail(ss))
-FmtStr(fmt) == Cat(fmt)
-
-\* ---------------------------------------------------------------- calendar
-\* days since 1970-01-01 -> proleptic Gregorian date (all intermediate values < 2^31)
-Civil(days) ==
-    LET z   == days + 719468
-        era == z \div 146097
-        doe == z - era * 146097
-        yoe == (doe - doe \div 1460 + doe \div 36524 - doe \div 146096) \div 365
-        doy == doe - (365 * yoe + yoe \div 4 - yoe \div 100)
-        mp  == (5 * doy + 2) \div 153
-        d   == doy - (153 * mp + 2) \div 5 + 1
-        m   == IF mp < 10 THEN mp + 3 ELSE mp - 9
-        y   == yoe + era * 400 + (IF m <= 2 THEN 1 ELSE 0)
-    IN [Y |-> y, m |-> m, d |-> d]
-
-\* broken-down time of instant (u, us) written with UTC offset off (minutes)
-BD(u, us, off) ==
-    LET ls  == u + off * 60
-        c   == Civil(ls \div 86400)
-        sod == ls % 86400
-    IN [Y |-> c.Y, m |-> c.m, d |-> c.d, H |-> sod \div 3600, M |-> (sod % 3600) \div 60, S |-> sod % 60,
-        us |-> us, off |-> off, u |-> u]
-
-LocalBD(i, zone) == BD(Table[i].u, Table[i].us, Table[i].off[zone])
-
-TableConsistent ==
-    \A i \in InstIds : \A z \in Zones :
-        LET b == LocalBD(i, z)  t == Table[i].bd[z]
-        IN b.Y = t.Y /\ b.m = t.m /\ b.d = t.d /\ b.H = t.H /\ b.M = t.M /\ b.S = t.S
-
-\* ---------------------------------------------------------------- Encode (what the recorder writes)
-Abs(n) == IF n < 0 THEN -n ELSE n
-OffStr(off) == IF off = 0 THEN "Z"
-               ELSE (IF off > 0 THEN "+" ELSE "-") \o Pad(Abs(off) \div 60, 2) \o Pad(Abs(off) % 60, 2)
-
-Render(tok, p, b) ==
-    CASE tok = "%path" -> p
-      [] tok = "%Y" -> ToString(b.Y)
-      [] tok = "%m" -> Pad(b.m, 2)
-      [] tok = "%d" -> Pad(b.d, 2)
-      [] tok = "%H" -> Pad(b.H, 2)
-      [] tok = "%M" -> Pad(b.M, 2)
-      [] tok = "%S" -> Pad(b.S, 2)
-      [] tok = "%f" -> Pad(b.us, 6)
-      [] tok = "%z" -> OffStr(b.off)
-      [] tok = "%s" -> ToString(b.u)
-      [] OTHER -> tok
-
-RECURSIVE Enc(_, _, _, _)
-Enc(fmt, i, p, b) == IF i > Len(fmt) THEN "" ELSE Render(fmt[i], p, b) \o Enc(fmt, i + 1, p, b)
-Encode(fmt, p, b) == Enc(fmt, 1, p, b)
-
-\* the format FindSegments / the recorder use for one path: %path replaced by the name (a literal)
-Subst(fmt, p) == [i \in 1..Len(fmt) |-> IF fmt[i] = "%path" THEN p ELSE fmt[i]]
-
-\* ---------------------------------------------------------------- layer 2: producible whole names
-Width(tok) == CASE tok = "%Y" -> 4 [] tok = "%f" -> 6 [] tok = "%s" -> 10 [] OTHER -> 2
-InRange(tok, s) ==
-    CASE tok = "%m" -> Val2(s) \in 1..12
-      [] tok = "%d" -> Val2(s) \in 1..31
-      [] tok = "%H" -> Val2(s) \in 0..23
-      [] tok = "%M" -> Val2(s) \in 0..59
-      [] tok = "%S" -> Val2(s) \in 0..59
-      [] OTHER -> TRUE
-
-\* PM(fmt, i, f, j, rng): tokens i.. of fmt can account for f from position j to its END
-RECURSIVE PM(_, _, _, _, _)
-PM(fmt, i, f, j, rng) ==
-    IF i > Len(fmt) THEN j = Len(f) + 1
-    ELSE LET t == fmt[i] IN
-      IF t = "%path" THEN \E k \in j..(Len(f) + 1) : PM(fmt, i + 1, f, k, rng)
-      ELSE IF t = "%z" THEN
-           \/ j <= Len(f) /\ Ch(f, j) = "Z" /\ PM(fmt, i + 1, f, j + 1, rng)
-           \/ j + 4 <= Len(f) /\ Ch(f, j) \in {"+", "-"} /\ IsDigits(SubSeq(f, j + 1, j + 4))
-                /\ PM(fmt, i + 1, f, j + 5, rng)
-      ELSE IF t \in Specs THEN
-           LET w == Width(t)  s == SubSeq(f, j, j + w - 1)
-           IN j + w - 1 <= Len(f) /\ IsDigits(s) /\ (rng => InRange(t, s)) /\ PM(fmt, i + 1, f, j + w, rng)
-      ELSE j + Len(t) - 1 <= Len(f) /\ SubSeq(f, j, j + Len(t) - 1) = t /\ PM(fmt, i + 1, f, j + Len(t), rng)
-
-WholeNameMatch(fmt, f) == PM(fmt, 1, f, 1, FALSE)     \* every character accounted for by the format
-Producible(fmt, f)     == PM(fmt, 1, f, 1, TRUE)      \* ... and every field within its calendar range
-
-\* ---------------------------------------------------------------- layer 1: the code's Decode
-Dev(unanch, norange) == [unanchored |-> unanch, norange |-> norange]
-NoDev   == Dev(FALSE, FALSE)      \* the ideal
-RealDev == Dev(TRUE, TRUE)        \* what path.go does today
-Fail == [ok |-> FALSE, b |-> <<>>]
-
-\* BT: first successful binding in backtracking order (%path shortest first), from position j
-RECURSIVE BT(_, _, _, _, _), TryPath(_, _, _, _, _, _)
-TryPath(fmt, i, f, j, k, dev) ==
-    IF k > Len(f) + 1 THEN Fail
-    ELSE LET r == BT(fmt, i + 1, f, k, dev)
-         IN IF r.ok THEN [ok |-> TRUE, b |-> <<[t |-> "%path", s |-> SubSeq(f, j, k - 1)]>> \o r.b]
-            ELSE TryPath(fmt, i, f, j, k + 1, dev)
-
-BT(fmt, i, f, j, dev) ==
-    IF i > Len(fmt) THEN [ok |-> (dev.unanchored \/ j = Len(f) + 1), b |-> <<>>]
-    ELSE LET t == fmt[i] IN
-      IF t = "%path" THEN TryPath(fmt, i, f, j, j, dev)
-      ELSE IF t = "%z" THEN
-           IF j <= Len(f) /\ Ch(f, j) = "Z" THEN
-                LET r == BT(fmt, i + 1, f, j + 1, dev)
-                IN IF r.ok THEN [ok |-> TRUE, b |-> <<[t |-> t, s |-> "Z"]>> \o r.b] ELSE Fail
-           ELSE IF j + 4 <= Len(f) /\ Ch(f, j) \in {"+", "-"} /\ IsDigits(SubSeq(f, j + 1, j + 4)) THEN
-                LET r == BT(fmt, i + 1, f, j + 5, dev)
-                IN IF r.ok THEN [ok |-> TRUE, b |-> <<[t |-> t, s |-> SubSeq(f, j, j + 4)]>> \o r.b] ELSE Fail
-           ELSE Fail
-      ELSE IF t \in Specs THEN
-           LET w == Width(t)  s == SubSeq(f, j, j + w - 1)
-           IN IF j + w - 1 <= Len(f) /\ IsDigits(s) /\ (dev.norange \/ InRange(t, s)) THEN
-                   LET r == BT(fmt, i + 1, f, j + w, dev)
-                   IN IF r.ok THEN [ok |-> TRUE, b |-> <<[t |-> t, s |-> s]>> \o r.b] ELSE Fail
-              ELSE Fail
-      ELSE IF j + Len(t) - 1 <= Len(f) /\ SubSeq(f, j, j + Len(t) - 1) = t
-           THEN BT(fmt, i + 1, f, j + Len(t), dev) ELSE Fail
-
-\* value bound to a specifier: the LAST group of that name wins (values[groupMapping[i]] = match)
-LastOf(b, tok, dflt) ==
-    LET is == {i \in 1..Len(b) : b[i].t = tok}
-    IN IF is = {} THEN dflt ELSE b[CHOOSE x \in is : \A y \in is : x >= y].s
-
-\* leftmost: the first start position from which the expression matches
-RECURSIVE TryStart(_, _, _, _)
-TryStart(fmt, f, s, dev) ==
-    IF s > Len(f) + 1 THEN Fail
-    ELSE LET r == BT(fmt, 1, f, s, dev)
-         IN IF r.ok THEN r ELSE IF dev.unanchored THEN TryStart(fmt, f, s + 1, dev) ELSE Fail
-
-DecodeImpl(fmt, f, dev) ==
-    LET r == TryStart(fmt, f, 1, dev)
-    IN IF r.ok THEN [ok |-> TRUE, path |-> LastOf(r.b, "%path", ""), b |-> r.b]
-       ELSE [ok |-> FALSE, path |-> "", b |-> <<>>]
 
 \* ---------------------------------------------------------------- layer 2: the round trip, on an observation
 \* o = what the real Decode returned for the real name: [ok, path, u, us, off]
